@@ -95,6 +95,10 @@ type MapEnt struct{ K, V Value }
 
 type ChanObj struct {
 	ID     int
+	Timer  bool
+	Epoch  int
+	ElemKind string
+	Name   string
 	Cap    int
 	Buf    []Value
 	Closed bool
